@@ -228,19 +228,30 @@ func odtAtoms(b *strings.Builder, ch Child, cnt *counter, o Origin) {
 func odtChildren(b *strings.Builder, blk Block, cnt *counter, idx int) {
 	for _, ch := range blk.Ch {
 		o := Origin{Block: idx, Kind: blk.K, Wrap: ch.W}
-		switch ch.W {
-		case "r": // character data directly in the paragraph
+		if ch.W == "r" { // character data directly in the paragraph
 			odtAtoms(b, ch, cnt, o)
-		case "span":
-			b.WriteString(`<text:span text:style-name="T1">`)
-			odtAtoms(b, ch, cnt, o)
-			b.WriteString(`</text:span>`)
-		case "link":
-			b.WriteString(`<text:a xlink:type="simple" xlink:href="http://example.com/">`)
-			odtAtoms(b, ch, cnt, o)
-			b.WriteString(`</text:a>`)
-		default:
-			panic("wpw: wrapper " + ch.W + " is not in the ODT alphabet")
+			continue
+		}
+		// inline containers, possibly nested: "outer>inner>..."
+		var closers []string
+		for _, box := range strings.Split(ch.W, ">") {
+			switch box {
+			case "span":
+				b.WriteString(`<text:span text:style-name="T1">`)
+				closers = append(closers, `</text:span>`)
+			case "link":
+				b.WriteString(`<text:a xlink:type="simple" xlink:href="http://example.com/">`)
+				closers = append(closers, `</text:a>`)
+			case "ruby": // 6.4: the ruby base is the text, the ruby text an annotation to it
+				b.WriteString(`<text:ruby><text:ruby-base>`)
+				closers = append(closers, `</text:ruby-base><text:ruby-text>rt</text:ruby-text></text:ruby>`)
+			default:
+				panic("wpw: wrapper " + ch.W + " is not in the ODT alphabet")
+			}
+		}
+		odtAtoms(b, ch, cnt, o)
+		for i := len(closers) - 1; i >= 0; i-- {
+			b.WriteString(closers[i])
 		}
 	}
 }
@@ -271,6 +282,12 @@ func odtTable(b *strings.Builder, tb Block, cnt *counter, blk, no int) {
 				fmt.Fprintf(b, `<text:section text:name="Cell%d_%d">`, no, cnt.n)
 			}
 			for p := 0; p < g.Np; p++ {
+				if p == 0 && tb.How == "cellnest" && !g.Rich { // the text inside a span inside a link
+					o.Wrap = "cell:link>span"
+					fmt.Fprintf(b, `<text:p text:style-name="Standard"><text:a xlink:type="simple" xlink:href="http://example.com/"><text:span text:style-name="T1">%s</text:span></text:a></text:p>`, TokText(cnt.next(o)))
+					o.Wrap = "cell"
+					continue
+				}
 				if p == 0 && g.Rich { // character data followed by a span
 					o.Rich = true
 					fmt.Fprintf(b, `<text:p text:style-name="Standard">%s`, TokText(cnt.next(o)))
